@@ -267,68 +267,48 @@ Variable f : wfun (A:=A) (I:=I).
 Hypothesis f_buffer_free : forall x T a g, gamma_of f (set_gpsis a g) x T = gamma_of f a x T.
 Hypothesis f_keeps_x : forall x T a w, f_apply f x T a = Ok w -> w_x w = x.
 
-Lemma run_hist_spec ops : forall arrays a g,
-  snd (run_hist f (mkH arrays (set_gpsis a g)) ops) = spec_hist f a arrays ops.
+(* one step of the object (whatever its buffer holds) is one step of the state-free specification *)
+Lemma hstep_spec o arrays results a g :
+  exists g', hstep f (mkH arrays results (set_gpsis a g)) o =
+             (mkH (fst (fst (spec_step f a (arrays, results) o))) (snd (fst (spec_step f a (arrays, results) o)))
+                  (set_gpsis a g'),
+              snd (spec_step f a (arrays, results) o)).
 Proof.
-  induction ops as [|o t IH]; intros arrays a g; [reflexivity|].
-  destruct o as [r alias T|r T|r v]; cbn [run_hist hstep h_arrays h_args].
-  - unfold call. destruct alias; cbn [xval].
-    + pose proof (f_buffer_free (nth r arrays []) T a g) as B. unfold gamma_of in B.
-      destruct (f_apply f (nth r arrays []) T (set_gpsis a g)) as [w|e] eqn:E; cbn [bind c_x c_gamma c_gpsis].
-      * rewrite (f_keeps_x _ _ _ _ E). rewrite upd_nth_same. rewrite set_gpsis_twice.
-        specialize (IH arrays a (w_gpsis w)).
-        destruct (run_hist f (mkH arrays (set_gpsis a (w_gpsis w))) t) as [s2 outs]. cbn [snd] in *.
-        cbn [spec_hist]. unfold gamma_of. rewrite <- B. cbn [c_gamma]. rewrite IH. reflexivity.
-      * specialize (IH arrays a g).
-        destruct (run_hist f (mkH arrays (set_gpsis a g)) t) as [s2 outs]. cbn [snd] in *.
-        cbn [spec_hist]. unfold gamma_of. rewrite <- B. rewrite IH. reflexivity.
-    + pose proof (f_buffer_free (nth r arrays []) T a g) as B. unfold gamma_of in B.
-      destruct (f_apply f (nth r arrays []) T (set_gpsis a g)) as [w|e] eqn:E; cbn [bind c_x c_gamma c_gpsis].
-      * cbn [c_x]. rewrite upd_nth_same. rewrite set_gpsis_twice.
-        specialize (IH arrays a (w_gpsis w)).
-        destruct (run_hist f (mkH arrays (set_gpsis a (w_gpsis w))) t) as [s2 outs]. cbn [snd] in *.
-        cbn [spec_hist]. unfold gamma_of. rewrite <- B. cbn [c_gamma]. rewrite IH. reflexivity.
-      * specialize (IH arrays a g).
-        destruct (run_hist f (mkH arrays (set_gpsis a g)) t) as [s2 outs]. cbn [snd] in *.
-        cbn [spec_hist]. unfold gamma_of. rewrite <- B. rewrite IH. reflexivity.
-  - pose proof (f_buffer_free (nth r arrays []) T a g) as B. unfold gamma_of in B.
-    destruct (f_apply f (nth r arrays []) T (set_gpsis a g)) as [w|e] eqn:E.
-    + rewrite (f_keeps_x _ _ _ _ E). rewrite upd_nth_same. rewrite set_gpsis_twice.
-      specialize (IH arrays a (w_gpsis w)).
-      destruct (run_hist f (mkH arrays (set_gpsis a (w_gpsis w))) t) as [s2 outs]. cbn [snd] in *.
-      cbn [spec_hist]. unfold gamma_of. rewrite <- B. rewrite IH. reflexivity.
-    + specialize (IH arrays a g).
-      destruct (run_hist f (mkH arrays (set_gpsis a g)) t) as [s2 outs]. cbn [snd] in *.
-      cbn [spec_hist]. unfold gamma_of. rewrite <- B. rewrite IH. reflexivity.
-  - specialize (IH (upd arrays r v) a g).
-    destruct (run_hist f (mkH (upd arrays r v) (set_gpsis a g)) t) as [s2 outs]. cbn [snd] in *.
-    cbn [spec_hist]. rewrite IH. reflexivity.
+  destruct o as [r alias T|r T|r v|k v]; cbn [hstep spec_step h_arrays h_results h_args fst snd].
+  - pose proof (f_buffer_free (nth r arrays []) T a g) as B. unfold gamma_of in *.
+    unfold call.
+    assert (XV : xval (if alias then XFloat64 (nth r arrays []) else XOther (nth r arrays [])) = nth r arrays [])
+      by (destruct alias; reflexivity).
+    rewrite XV.
+    destruct (f_apply f (nth r arrays []) T (set_gpsis a g)) as [w|e] eqn:E; cbn [bind c_x c_gamma c_gpsis];
+      rewrite <- B.
+    + exists (w_gpsis w). rewrite set_gpsis_twice.
+      assert (X : (match (if alias then XFloat64 (nth r arrays []) else XOther (nth r arrays [])) with
+                   | XFloat64 _ => w_x w | XOther v => v end) = nth r arrays []).
+      { destruct alias; auto. apply (f_keeps_x _ _ _ _ E). }
+      rewrite X. rewrite upd_nth_same. reflexivity.
+    + exists g. reflexivity.
+  - pose proof (f_buffer_free (nth r arrays []) T a g) as B. unfold gamma_of in *.
+    destruct (f_apply f (nth r arrays []) T (set_gpsis a g)) as [w|e] eqn:E; rewrite <- B.
+    + exists (w_gpsis w). rewrite set_gpsis_twice. rewrite (f_keeps_x _ _ _ _ E). rewrite upd_nth_same. reflexivity.
+    + exists g. reflexivity.
+  - exists g. reflexivity.
+  - exists g. reflexivity.
 Qed.
 
-(* the caller's arrays change only through the caller's own writes *)
-Lemma run_hist_arrays ops : forall arrays a,
-  h_arrays (fst (run_hist f (mkH arrays a) ops)) =
-  fold_left (fun arr o => match o with HSet r v => upd arr r v | _ => arr end) ops arrays.
+Lemma run_hist_spec ops : forall arrays results a g,
+  exists g', run_hist f (mkH arrays results (set_gpsis a g)) ops =
+             (mkH (fst (fst (spec_hist f a (arrays, results) ops))) (snd (fst (spec_hist f a (arrays, results) ops)))
+                  (set_gpsis a g'),
+              snd (spec_hist f a (arrays, results) ops)).
 Proof.
-  induction ops as [|o t IH]; intros arrays a; [reflexivity|].
-  destruct o as [r alias T|r T|r v]; cbn [run_hist hstep h_arrays h_args fold_left].
-  - unfold call. destruct alias; cbn [xval];
-      destruct (f_apply f (nth r arrays []) T a) as [w|e] eqn:E; cbn [bind c_x c_gamma c_gpsis].
-    + rewrite (f_keeps_x _ _ _ _ E). rewrite upd_nth_same.
-      specialize (IH arrays (set_gpsis a (w_gpsis w))).
-      destruct (run_hist f (mkH arrays (set_gpsis a (w_gpsis w))) t) as [s2 outs]. cbn [fst] in *. exact IH.
-    + specialize (IH arrays a). destruct (run_hist f (mkH arrays a) t) as [s2 outs]. cbn [fst] in *. exact IH.
-    + rewrite upd_nth_same.
-      specialize (IH arrays (set_gpsis a (w_gpsis w))).
-      destruct (run_hist f (mkH arrays (set_gpsis a (w_gpsis w))) t) as [s2 outs]. cbn [fst] in *. exact IH.
-    + specialize (IH arrays a). destruct (run_hist f (mkH arrays a) t) as [s2 outs]. cbn [fst] in *. exact IH.
-  - destruct (f_apply f (nth r arrays []) T a) as [w|e] eqn:E.
-    + rewrite (f_keeps_x _ _ _ _ E). rewrite upd_nth_same.
-      specialize (IH arrays (set_gpsis a (w_gpsis w))).
-      destruct (run_hist f (mkH arrays (set_gpsis a (w_gpsis w))) t) as [s2 outs]. cbn [fst] in *. exact IH.
-    + specialize (IH arrays a). destruct (run_hist f (mkH arrays a) t) as [s2 outs]. cbn [fst] in *. exact IH.
-  - specialize (IH (upd arrays r v) a). destruct (run_hist f (mkH (upd arrays r v) a) t) as [s2 outs].
-    cbn [fst] in *. exact IH.
+  induction ops as [|o t IH]; intros arrays results a g; [exists g; reflexivity|].
+  cbn [run_hist spec_hist].
+  destruct (hstep_spec o arrays results a g) as [g1 H1]. rewrite H1.
+  destruct (spec_step f a (arrays, results) o) as [[arr1 res1] out1] eqn:S1. cbn [fst snd].
+  destruct (IH arr1 res1 a g1) as [g2 H2]. rewrite H2.
+  destruct (spec_hist f a (arr1, res1) t) as [[arr2 res2] outs2]. cbn [fst snd].
+  exists g2. reflexivity.
 Qed.
 End History.
 
@@ -350,17 +330,51 @@ Proof.
   - subst. reflexivity.
 Qed.
 
-Lemma wrapper_history sp psi lgc gac (a : gargs (A:=A) (I:=I)) arrays ops :
+Lemma wrapper_history sp psi lgc gac (a : gargs (A:=A) (I:=I)) arrays results ops :
   let f := wrapper K GatherIntoSub sp psi lgc gac in
-  snd (run_hist f (mkH arrays a) ops) = spec_hist f a arrays ops /\
-  h_arrays (fst (run_hist f (mkH arrays a) ops)) =
+  let S := spec_hist f a (arrays, results) ops in
+  let R := run_hist f (mkH arrays results a) ops in
+  snd R = snd S /\ h_arrays (fst R) = fst (fst S) /\ h_results (fst R) = snd (fst S).
+Proof.
+  intros f S R. subst R S.
+  assert (HB : forall x T a0 g, gamma_of f (set_gpsis a0 g) x T = gamma_of f a0 x T)
+    by (intros; apply wrapper_buffer_free).
+  assert (HX : forall x T a0 w, f_apply f x T a0 = Ok w -> w_x w = x)
+    by (intros x T a0 w H; unfold f_apply in H; eapply wrapper_x_untouched; eauto).
+  destruct (run_hist_spec f HB HX ops arrays results a (a_gpsis a)) as [g' H].
+  rewrite set_gpsis_self in H. rewrite H. cbn [fst snd h_arrays h_results]. auto.
+Qed.
+
+(* the specification: the caller's arrays change only by the caller's writes; a result, once handed out, changes only
+   by the caller's writes to it (later calls neither read nor write it) *)
+Lemma spec_hist_arrays (f : wfun (A:=A) (I:=I)) a ops : forall arrays results,
+  fst (fst (spec_hist f a (arrays, results) ops)) =
   fold_left (fun arr o => match o with HSet r v => upd arr r v | _ => arr end) ops arrays.
 Proof.
-  intros f. split.
-  - rewrite <- (set_gpsis_self a) at 1. apply run_hist_spec.
-    + intros x T a0 g. apply wrapper_buffer_free.
-    + intros x T a0 w H. unfold f_apply in H. eapply wrapper_x_untouched; eauto.
-  - apply run_hist_arrays. intros x T a0 w H. unfold f_apply in H. eapply wrapper_x_untouched; eauto.
+  induction ops as [|o t IH]; intros arrays results; [reflexivity|].
+  cbn [spec_hist fold_left].
+  destruct (spec_step f a (arrays, results) o) as [[arr1 res1] out1] eqn:S1.
+  specialize (IH arr1 res1). destruct (spec_hist f a (arr1, res1) t) as [[arr2 res2] outs2]. cbn [fst snd] in *.
+  rewrite IH. f_equal. destruct o; cbn in S1; inversion S1; reflexivity.
+Qed.
+
+(* ideal object: every call answers ones, whatever the caller did to earlier results *)
+Lemma ideal_hist_ones ops : forall results,
+  Forall (fun o => match o with
+                   | None => True
+                   | Some (FScalar v) => v = kq K 1
+                   | Some (FArray g) => forall i, nth i g (kq K 1) = kq K 1
+                   end) (snd (run_ideal_hist K results ops)).
+Proof.
+  induction ops as [|o t IH]; intros results; cbn [run_ideal_hist]; [constructor|].
+  destruct o as [n| |k v]; cbn [istep].
+  - specialize (IH (results ++ [repeat (kq K 1) n])).
+    destruct (run_ideal_hist K (results ++ [repeat (kq K 1) n]) t) as [r2 outs]. cbn [snd] in *.
+    constructor; [|exact IH]. intros i. revert i. induction n; intros [|i]; simpl; auto.
+  - specialize (IH results). destruct (run_ideal_hist K results t) as [r2 outs]. cbn [snd] in *.
+    constructor; [reflexivity|exact IH].
+  - specialize (IH (upd results k v)). destruct (run_ideal_hist K (upd results k v) t) as [r2 outs]. cbn [snd] in *.
+    constructor; [exact Logic.I|exact IH].
 Qed.
 
 End Generic.
